@@ -8,8 +8,11 @@ using opentelemetry::common::SpinLockMutex;
 
 namespace {
 // programs: sequences of operations; L = lock..unlock, T = try_lock (unlock if acquired)
-const char *const kPrograms[] = {"L", "T", "LL", "LT", "TL", "TT"};
-constexpr int NPROG = 6;
+// S = lock, sleep 3 ms (virtual) inside the critical section, unlock: while the holder sleeps nobody but the
+// waiters can run, so a waiting lock() is driven through its whole ladder (100 fast iterations, yield,
+// try_lock, sleep_for(1 ms), repeat) instead of being parked after its first pause
+const char *const kPrograms[] = {"L", "T", "LL", "LT", "TL", "TT", "S"};
+constexpr int NPROG = 6;  // programs combined freely; "S" (index 6) is added in dedicated configurations
 struct Cfg { int nthreads; int prog[3]; };
 std::vector<Cfg> g_cfgs;
 
@@ -27,6 +30,11 @@ void setup(vf::Options &o) {
   for (int a = 0; a < (th ? NPROG : 3); ++a)
     for (int b = a; b < (th ? NPROG : 3); ++b)
       for (int c = b; c < (th ? NPROG : 3); ++c) g_cfgs.push_back({3, {a, b, c}});
+  g_cfgs.push_back({2, {6, 0, 0}});   // S | L : the waiter walks the whole ladder
+  g_cfgs.push_back({2, {6, 1, 0}});   // S | T
+  g_cfgs.push_back({2, {6, 3, 0}});   // S | LT
+  // (two waiters behind a sleeping holder branch at every spin step - both are "spinning without news" and
+  // either may run - so that configuration is left out: it does not finish at any useful bound)
 }
 
 void run(vf::Ctx &c) {
@@ -43,7 +51,7 @@ void run(vf::Ctx &c) {
       ts.emplace_back([&, t] {
         for (const char *p = kPrograms[cfg.prog[t]]; *p; ++p) {
           bool got;
-          if (*p == 'L') { mu.lock(); got = true; }
+          if (*p == 'L' || *p == 'S') { mu.lock(); got = true; }
           else {
             got = mu.try_lock();
             // "try_lock succeeds only on a free lock" is judged at the step at which it succeeds: the
@@ -53,10 +61,11 @@ void run(vf::Ctx &c) {
             if (!got) failed_try++;
           }
           if (got) {
-            if (++holders != 1) vfs::fail(*p == 'L' ? "C11:two-holders" : "C11:trylock-on-held", vf::sfmt("%d threads hold the spin lock after %s returned", holders, *p == 'L' ? "lock()" : "try_lock()==true"));
+            if (++holders != 1) vfs::fail(*p != 'T' ? "C11:two-holders" : "C11:trylock-on-held", vf::sfmt("%d threads hold the spin lock after %s returned", holders, *p != 'T' ? "lock()" : "try_lock()==true"));
             vfs::note("acquired", t);
             acquisitions++;
             inside.store(t + 1);   // a scheduling point inside the critical section
+            if (*p == 'S') std::this_thread::sleep_for(std::chrono::milliseconds(3));
             if (holders != 1) vfs::fail("C11:two-holders", vf::sfmt("%d threads hold the spin lock", holders));
             --holders;
             mu.unlock();
@@ -67,7 +76,7 @@ void run(vf::Ctx &c) {
     c.stage("oracle");
     int locks = 0;
     for (int t = 0; t < cfg.nthreads; ++t)
-      for (const char *p = kPrograms[cfg.prog[t]]; *p; ++p) locks += (*p == 'L');
+      for (const char *p = kPrograms[cfg.prog[t]]; *p; ++p) locks += (*p == 'L' || *p == 'S');
     if (acquisitions < locks) vfs::fail("C11:lock-never-returned", "a lock() call did not acquire the lock");
     if (!mu.try_lock()) vfs::fail("C11:left-locked", "the lock is still held after all threads unlocked");
     mu.unlock();
